@@ -39,7 +39,15 @@ def check_bracket(ctx):
     C03.check_bracket(ctx, "C04.bracket")
 
 
+def check_ro_mask(ctx):
+    """a read-only recovery (migration source) cannot replay an active journal, it masks the journaled extents instead; it reports
+    what a read-write recovery of the same image reports only if the masking cursor walks the extents in start order (C15.mask)"""
+    from rules import C15
+    C15.check_mask(ctx, "C04.ro-mask")
+
+
 def check(ctx):
+    check_ro_mask(ctx)
     check_bracket(ctx)
     check_marker_accept(ctx)
     check_release_len(ctx)
